@@ -4,7 +4,6 @@ mod builder;
 mod call_frame;
 mod exception_handler;
 
-use crate::constants::UNDEFINED_ARRAY;
 
 use self::{call_frame::CallFrame, exception_handler::ExceptionHandler};
 use laythe_core::{
@@ -114,8 +113,9 @@ impl Fiber {
     let mut allocator = context.gc();
 
     // Create stack and assign fun to first slot
+    let undefined = vec![VALUE_UNDEFINED; stack_count];
     let mut stack = UniqueVector::new(allocator.manage(
-      VecBuilder::new(&UNDEFINED_ARRAY[0..stack_count], stack_count),
+      VecBuilder::new(&undefined, stack_count),
       context,
     ));
 
@@ -585,8 +585,9 @@ impl Fiber {
     let mut allocator = context.gc();
 
     // Create the stack
+    let undefined = vec![VALUE_UNDEFINED; stack_count];
     let mut stack = UniqueVector::new(allocator.manage(
-      VecBuilder::new(&UNDEFINED_ARRAY[0..stack_count], stack_count),
+      VecBuilder::new(&undefined, stack_count),
       context,
     ));
     allocator.push_root(stack);
